@@ -155,11 +155,11 @@ def constructors(ctx):
         if ok:
             for x in strings:
                 ctx.eq(f"from_string({s})({x})", m(x), num.one if x == s else num.zero, sig="from_string")
-    Xs = [("a",), ("a", "b"), (), ("b", "a")]
-    ok, m = ctx.call("from_strings", WFSA.from_strings, Xs, R, sig="from_strings:construct")
-    if ok:
-        for x in strings:
-            ctx.eq(f"from_strings({x})", m(x), num.one if x in Xs else num.zero, sig="from_strings")
+    for Xs in ([("a",), ("a", "b"), (), ("b", "a")], [("a", "b"), ("a",), ("b", "a", "b"), ("b",), ()], [("b", "b"), ("b", "b"), ("b",)]):
+        ok, m = ctx.call("from_strings", WFSA.from_strings, Xs, R, sig="from_strings:construct")
+        if ok:
+            for x in strings:
+                ctx.eq(f"from_strings({Xs})({x})", m(x), num.one if x in Xs else num.zero, sig="from_strings")
     base = WFSA.lift("a", w, R=R)
     ok, z = ctx.call("zero", lambda: base.zero, sig="zero:construct")
     if ok:
@@ -172,7 +172,8 @@ def constructors(ctx):
 
 
 EXPRS_Q = [["add", "A", "B"], ["mul", "A", "B"], ["star", "A"], ["plus", "A"], ["reverse", "A"],
-           ["star", ["add", "A", "B"]], ["mul", ["star", "A"], "B"], ["reverse", ["mul", "A", "B"]], ["renumber", ["rename", "A"]]]
+           ["star", ["add", "A", "B"]], ["mul", ["star", "A"], "B"], ["reverse", ["mul", "A", "B"]], ["renumber", ["rename", "A"]],
+           ["plus", ["plus", "A"]], ["star", ["plus", "B"]]]
 EXPRS_T = EXPRS_Q + [["add", ["mul", "A", "B"], "A"], ["plus", ["mul", "A", "B"]], ["mul", "A", ["star", "B"]], ["star", ["reverse", "A"]],
                      ["mul", ["mul", "A", "B"], "A"], ["star", ["star", "A"]]]
 
